@@ -30,6 +30,10 @@ variable {α : Type} [Add α] [Sub α] [Mul α] [Div α] [Neg α] [Zero α] [One
 /-- `diff = input.colwise() - mean` -/
 def diffCols {d b : Nat} (x : Mat α d b) (m : Vec α d) : Mat α d b := Mat.of (fun i c => x i c - m i)
 
+/-- the one-column batch holding column `c` of `x` (`input.col(c)` handed over as the whole input, as
+    the Kalman-type corrections do: one call per mixture component) -/
+def colOfBatch {d b : Nat} (x : Mat α d b) (c : Fin b) : Mat α d 1 := Mat.of (fun i _ => x i c)
+
 /-- `v.transpose() * S.inverse() * v` -/
 def quadForm {d : Nat} (inv : InvFn α) (S : Mat α d d) (v : Vec α d) : α :=
   Vec.dot ((inv d S).transpose.mulVec v) v
@@ -114,7 +118,8 @@ def logDensity {d b : Nat} (inv : InvFn α) (x : Mat α d b) (m : Vec α d) (S :
 
 /-- `multivariate_gaussian_density = exp(log density)` -/
 def density {d b : Nat} (inv : InvFn α) (x : Mat α d b) (m : Vec α d) (S : Mat α d d) : Vec α b :=
-  Vec.of (fun c => Transc.exp (logDensity inv x m S c))
+  let L := logDensity inv x m S          -- evaluated once for the batch, as in the code
+  Vec.of (fun c => Transc.exp (L c))
 
 /-- `multivariate_gaussian_log_density_UVR` -/
 def logDensityUVR {k nb bs b : Nat} (inv : InvFn α) (x : Mat α (nb * bs) b) (m : Vec α (nb * bs))
@@ -125,7 +130,17 @@ def logDensityUVR {k nb bs b : Nat} (inv : InvFn α) (x : Mat α (nb * bs) b) (m
 /-- `multivariate_gaussian_density_UVR = exp(log density UVR)` -/
 def densityUVR {k nb bs b : Nat} (inv : InvFn α) (x : Mat α (nb * bs) b) (m : Vec α (nb * bs))
     (U : Mat α (nb * bs) k) (V : Mat α k (nb * bs)) (R : RNoise α nb bs) : Vec α b :=
-  Vec.of (fun c => Transc.exp (logDensityUVR inv x m U V R c))
+  let L := logDensityUVR inv x m U V R   -- evaluated once for the batch, as in the code
+  Vec.of (fun c => Transc.exp (L c))
+
+/-- one call of `multivariate_gaussian_log_density` per column of the batch (each a one-column batch) -/
+def logDensityCols {d b : Nat} (inv : InvFn α) (x : Mat α d b) (m : Vec α d) (S : Mat α d d) : Vec α b :=
+  Vec.of (fun c => logDensity inv (colOfBatch x c) m S 0)
+
+/-- one call of `multivariate_gaussian_log_density_UVR` per column of the batch -/
+def logDensityUVRCols {k nb bs b : Nat} (inv : InvFn α) (x : Mat α (nb * bs) b) (m : Vec α (nb * bs))
+    (U : Mat α (nb * bs) k) (V : Mat α k (nb * bs)) (R : RNoise α nb bs) : Vec α b :=
+  Vec.of (fun c => logDensityUVR inv (colOfBatch x c) m U V R 0)
 
 end transc
 
